@@ -4,9 +4,10 @@ package secretstore
 
 import (
 	"bytes"
-	crand "crypto/rand"
 	"crypto/ecdsa"
 	"crypto/elliptic"
+	crand "crypto/rand"
+	"filippo.io/edwards25519"
 	"fmt"
 	"strings"
 	"sync"
@@ -201,14 +202,62 @@ func TestVerif_C11_Derivations(t *testing.T) {
 				fail("member-key-collision", "the member key in a group named after a contact's key is a key of the contact group")
 			}
 		}
+		// public keys of the right length that no honest party can hold (not a point of the curve, or a point of small
+		// order): a derivation may be refused; whatever is derived is unrelated across accounts and across keys
+		{
+			var strays [][]byte
+			for len(strays) < 2 {
+				b := make([]byte, 32)
+				_, _ = crand.Read(b)
+				if _, err := new(edwards25519.Point).SetBytes(b); err != nil {
+					strays = append(strays, b)
+				}
+			}
+			one := make([]byte, 32)
+			one[0] = 1
+			strays = append(strays, one, make([]byte, 32)) // the neutral element, a point of order 4
+			seenID, seenSecret, seenMember := map[string]string{}, map[string]string{}, map[string]string{}
+			derived := 0
+			for ai := 0; ai < 2; ai++ {
+				for si, raw := range strays {
+					who := fmt.Sprintf("A%d/stray-key-%d", ai, si)
+					pk, err := crypto.UnmarshalEd25519PublicKey(raw)
+					if err != nil {
+						continue
+					}
+					if cg, err := accs[ai].s.GetGroupForContact(pk); err == nil {
+						derived++
+						if prev, dup := seenID[string(cg.PublicKey)]; dup {
+							fail("contact-group-collision", "%s and %s derive the same contact group identifier %x", prev, who, cg.PublicKey[:8])
+						}
+						if prev, dup := seenSecret[string(cg.Secret)]; dup {
+							fail("contact-group-collision", "%s and %s derive the same contact group secret", prev, who)
+						}
+						seenID[string(cg.PublicKey)], seenSecret[string(cg.Secret)] = who, who
+					}
+					sec := make([]byte, 32)
+					_, _ = crand.Read(sec)
+					named := &protocoltypes.Group{PublicKey: raw, Secret: sec, SecretSig: make([]byte, 64), GroupType: protocoltypes.GroupType_GroupTypeMultiMember}
+					if md, err := accs[ai].s.GetOwnMemberDeviceForGroup(named); err == nil {
+						derived++
+						mk := string(vRaw(md.Member()))
+						if prev, dup := seenMember[mk]; dup {
+							fail("member-key-collision", "%s and %s derive the same member key %x for groups named after keys nobody holds", prev, who, mk[:8])
+						}
+						seenMember[mk] = who
+					}
+				}
+			}
+			trace = append(trace, fmt.Sprintf("stray keys: %d derivations accepted", derived))
+		}
 		acct.Case(true, fmt.Sprintf("%d|%v", nAcc, uses), func() any {
 			return map[string]any{"kind": "derivations", "accounts": nAcc, "first_uses": trace}
-		}, "derive", lbl(len(uses) > 0, "derive/first-use-before-import"))
+		}, "derive", lbl(len(uses) > 0, "derive/first-use-before-import"), "derive/stray-public-keys")
 	})
 }
 
 var (
-	c11Once             sync.Once
+	c11Once                   sync.Once
 	c11RSA, c11Secp, c11ECDSA crypto.PrivKey
 )
 
